@@ -4,7 +4,12 @@ package lib
 //
 // The covert either sinks the upload until the station closes ("sink"; the client's script ends the
 // tunnel), or reads a known number of upload bytes, sends its reply and closes with FIN
-// ("reply-fin") or RST (SetLinger(0), "reply-rst"), or refuses the connection ("refuse").
+// ("reply-fin") or RST (SetLinger(0), "reply-rst"), or refuses the connection ("refuse"), or sinks
+// the upload until it sees its end and then neither closes nor goes away ("sink-hold": it may still
+// send something - a peer that answers after the request's FIN - and keeps its socket open until
+// Proxy has returned): the end of the upload direction alone has to bring the tunnel down. The
+// client connection can be scripted half-closable (CloseWrite / CloseRead), as the covert's
+// *net.TCPConn always is.
 // Checked: Proxy returns; the open-session gauge is back at its previous value; the client
 // connection was closed; what the covert received is a prefix of what client.Read returned (all of
 // it - including bytes returned together with EOF / an error - when only the client's read side
@@ -20,6 +25,7 @@ import (
 	"net"
 	"runtime"
 	"strings"
+	"sync"
 	"sync/atomic"
 	"testing"
 	"time"
@@ -33,8 +39,9 @@ import (
 
 type c05ProxyCase struct {
 	Client c05Script `json:"client"`
-	Mode   string    `json:"mode"`            // sink | reply-fin | reply-rst | refuse
+	Mode   string    `json:"mode"`            // sink | sink-hold | reply-fin | reply-rst | refuse
 	Reply  []int     `json:"reply,omitempty"` // sizes of the covert's writes
+	After  []int     `json:"after,omitempty"` // sink-hold: writes the covert attempts after it saw the end of the upload
 	Await  int       `json:"await,omitempty"` // reply modes: upload bytes the covert reads before it replies
 	// Header: "" registration without the proxy_header flag; "ok" flag set, the client's RemoteAddr is
 	// ip:port (the covert first gets the PROXY line); "bad-remote" flag set but RemoteAddr is not
@@ -76,14 +83,16 @@ type c05CovertRes struct {
 	recvN   int
 	recvBad int // first received byte that differs from the client's stream (-1 none)
 	sent    int
+	sentEnd int // sink-hold: bytes sent before the covert saw the end of the upload (-1: it has not)
 	readErr string
 	hdrErr  string // the PROXY line did not arrive (error text) or differs
 }
 
 // c05Covert plays the covert's side of one tunnel.
-func c05CovertServe(ln *net.TCPListener, c c05ProxyCase, clientStream, reply []byte, res *c05CovertRes, done chan struct{}, abort chan struct{}) {
+func c05CovertServe(ln *net.TCPListener, c c05ProxyCase, clientStream, reply []byte, res *c05CovertRes, done chan struct{}, abort, release chan struct{}) {
 	defer close(done)
 	res.recvBad = -1
+	res.sentEnd = -1
 	_ = ln.SetDeadline(time.Now().Add(30 * time.Second))
 	conn, err := ln.Accept()
 	if err != nil {
@@ -153,6 +162,29 @@ func c05CovertServe(ln *net.TCPListener, c c05ProxyCase, clientStream, reply []b
 	case "sink":
 		send()
 		recv(-1)
+	case "sink-hold":
+		send()
+		recv(-1)
+		if res.err != "" {
+			return
+		}
+		// The end of the upload (FIN, or RST) has been seen. The station can only have produced it by
+		// Close or CloseWrite on its socket, so whatever is sent from here on is sent after the upload
+		// direction has ended. Then stay: neither close nor fail until the harness says so.
+		res.sentEnd = res.sent
+		off := res.sent
+		for _, n := range c.After {
+			m, err := tc.Write(reply[off : off+n])
+			res.sent += m
+			off += n
+			if err != nil {
+				break // (the normal outcome: the station's socket is closed, the kernel answers RST)
+			}
+		}
+		select {
+		case <-release:
+		case <-abort:
+		}
 	case "reply-fin", "reply-rst":
 		if recv(c.Await) {
 			send()
@@ -180,11 +212,19 @@ func c05RunProxy(env *c05ProxyEnv, c c05ProxyCase) (out c05Out) {
 	for _, n := range c.Reply {
 		replyTotal += n
 	}
+	afterTotal := 0
+	for _, n := range c.After {
+		afterTotal += n
+	}
+	isSink := c.Mode == "sink" || c.Mode == "sink-hold"
+	if c.Client.HalfClose {
+		set["caps:client-half-closable"] = true
+	}
 	cs, err := c05Stream(c05Client, c.Client.total())
 	if err != nil {
 		return c05Out{key: "harness", msg: err.Error()}
 	}
-	reply, err := c05Stream(c05Covert, replyTotal)
+	reply, err := c05Stream(c05Covert, replyTotal+afterTotal)
 	if err != nil {
 		return c05Out{key: "harness", msg: err.Error()}
 	}
@@ -207,11 +247,15 @@ func c05RunProxy(env *c05ProxyEnv, c c05ProxyCase) (out c05Out) {
 	var res c05CovertRes
 	covDone := make(chan struct{})
 	abortCh := make(chan struct{})
+	release := make(chan struct{}) // closed when Proxy has returned (or the case is given up): a holding covert may go
+	var relOnce sync.Once
+	rel := func() { relOnce.Do(func() { close(release) }) }
+	defer rel()
 	if c.Mode == "refuse" {
 		reg.Covert = "127.0.0.1:1"
 		close(covDone)
 	} else {
-		go c05CovertServe(env.ln, c, cs, reply, &res, covDone, abortCh)
+		go c05CovertServe(env.ln, c, cs, reply, &res, covDone, abortCh, release)
 	}
 	logbuf := &vSyncBuf{} // the asynchronous closer may still log after Proxy returned
 	logger := log.New(logbuf, "", 0)
@@ -220,7 +264,7 @@ func c05RunProxy(env *c05ProxyEnv, c c05ProxyCase) (out c05Out) {
 		var pan any
 		defer func() { pdone <- pan }()
 		defer func() { pan = recover() }()
-		Proxy(&reg, client, logger)
+		Proxy(&reg, client.asConn(), logger)
 	}()
 	var pan any
 	returned := false
@@ -233,6 +277,7 @@ func c05RunProxy(env *c05ProxyEnv, c c05ProxyCase) (out c05Out) {
 		case pan = <-pdone:
 			returned = true
 			closeBegun, _, closeSyncOpen = client.closeState() // at the moment Proxy returned
+			rel()
 		case <-time.After(300 * time.Millisecond):
 			gs, inPipe, inWait := c05RelayGoroutines()
 			if inWait && !inPipe {
@@ -424,6 +469,17 @@ func c05RunProxy(env *c05ProxyEnv, c c05ProxyCase) (out c05Out) {
 	if offered > res.sent {
 		fail("stream:offered-more-than-read", fmt.Sprintf("down: %d bytes offered to the client, the covert only sent %d", offered, res.sent))
 	}
+	if c.Mode == "sink-hold" && res.sentEnd >= 0 {
+		set["covert:stays-after-upload-end"] = true
+		if res.sent > res.sentEnd {
+			set["covert:sends-after-upload-end"] = true
+		}
+		if offered > res.sentEnd {
+			// causal, not timed: the covert sent these bytes only after it had seen the end of the upload
+			// stream, which the station can only have produced by Close / CloseWrite on the covert socket
+			fail("teardown:relayed-after-upload-ended", fmt.Sprintf("down: the client connection was offered %d bytes, but the covert had sent only %d before it saw the end of the upload stream (%q): the rest was sent after the upload direction had ended and was still read from the covert connection and relayed - that connection was not closed when the direction ended", offered, res.sentEnd, res.readErr))
+		}
+	}
 	if c.Mode == "reply-fin" && !sawWriteFail && !sawDLFail && !sawReadFail && res.sent == replyTotal && res.recvN == c.Client.total() {
 		set["down:complete-demanded"] = true
 		if offered != replyTotal {
@@ -437,7 +493,7 @@ func c05RunProxy(env *c05ProxyEnv, c c05ProxyCase) (out c05Out) {
 	if res.recvN > readN {
 		fail("stream:offered-more-than-read", fmt.Sprintf("up: the covert received %d bytes, client.Read returned only %d", res.recvN, readN))
 	}
-	graceful := c.Mode == "sink" && !sawWriteFail && !sawDLFail
+	graceful := isSink && !sawWriteFail && !sawDLFail
 	if graceful {
 		// only the client's read side (EOF / error, possibly with data) can have ended the tunnel
 		set["up:complete-demanded"] = true
@@ -456,7 +512,7 @@ func c05RunProxy(env *c05ProxyEnv, c c05ProxyCase) (out c05Out) {
 	}
 	// why did the tunnel end? Only a failure of one side may end it.
 	clientQuiet := !sawWriteFail && !sawDLFail && !sawReadFail
-	if c.Mode == "sink" && clientQuiet {
+	if isSink && clientQuiet {
 		// the covert never ends first and no call on the client connection failed
 		fail("ended-without-failure", fmt.Sprintf("the tunnel was torn down although neither side had failed: the covert was reading until the station closed, and no Read / Write / SetDeadline on the client connection returned an error (client.Read had returned %d of %d scripted bytes, %d reached the covert); the rest of the stream is lost", readN, c.Client.total(), res.recvN))
 	}
@@ -488,7 +544,7 @@ func c05RunProxy(env *c05ProxyEnv, c c05ProxyCase) (out c05Out) {
 	if !client.isClosed() {
 		fail("teardown:connection-left-open", "the client connection was never closed")
 	}
-	if c.Mode == "sink" && res.readErr == "" {
+	if isSink && res.readErr == "" {
 		return c05Out{key: "harness", msg: "sink covert ended without a read result"}
 	}
 	// counters
@@ -501,7 +557,7 @@ func c05RunProxy(env *c05ProxyEnv, c c05ProxyCase) (out c05Out) {
 	// (with epoch roll-overs the global byte counters are only compared where the download direction
 	// cannot have been adding to them at the moment of a reset: the station's own print-and-reset is
 	// not atomic with respect to running relays either)
-	if ep.n == 0 || (c.Mode == "sink" && replyTotal == 0) {
+	if ep.n == 0 || (isSink && replyTotal == 0) {
 		if k, m := c05CheckCounts([2]int64{sum.BytesUp, sum.BytesDown}, sum.BytesUp, sum.BytesDown, pre, post); k != "" {
 			fail(k, m)
 		}
@@ -529,7 +585,7 @@ func c05ProxyCheck(t vh.Fataler, rec *vh.Rec, env *c05ProxyEnv, c c05ProxyCase) 
 var c05ProxySizes = []int{1, 2, 100, 1448, 5000, 32767, 32768, 32769, 40000, 70000}
 
 func c05ProxyGen(rt *rapid.T) c05ProxyCase {
-	c := c05ProxyCase{Mode: rapid.SampledFrom([]string{"sink", "sink", "sink", "reply-fin", "reply-fin", "reply-rst", "refuse"}).Draw(rt, "mode")}
+	c := c05ProxyCase{Mode: rapid.SampledFrom([]string{"sink", "sink", "sink-hold", "sink-hold", "reply-fin", "reply-fin", "reply-rst", "refuse"}).Draw(rt, "mode")}
 	for i, n := 0, rapid.IntRange(0, 3).Draw(rt, "nreply"); i < n; i++ {
 		c.Reply = append(c.Reply, rapid.SampledFrom(c05ProxySizes).Draw(rt, "reply"))
 	}
@@ -549,7 +605,7 @@ func c05ProxyGen(rt *rapid.T) c05ProxyCase {
 		s.Reads = append(s.Reads, st)
 	}
 	switch c.Mode {
-	case "sink":
+	case "sink", "sink-hold":
 		// the client's read side ends the tunnel
 		s.End = rapid.SampledFrom([]string{"eof", "eof", "reset", "timeout", "eio"}).Draw(rt, "end")
 		if n := len(s.Reads); n > 0 && s.Reads[n-1].N > 0 && rapid.Bool().Draw(rt, "lastWithErr") {
@@ -589,13 +645,20 @@ func c05ProxyGen(rt *rapid.T) c05ProxyCase {
 		s.CloseMs = rapid.IntRange(15, 40).Draw(rt, "closems")
 	}
 	c.Header = rapid.SampledFrom([]string{"", "", "", "", "ok", "bad-remote"}).Draw(rt, "header")
+	if c.Mode == "sink-hold" {
+		for i, n := 0, rapid.IntRange(0, 2).Draw(rt, "nafter"); i < n; i++ {
+			c.After = append(c.After, rapid.SampledFrom(c05ProxySizes).Draw(rt, "after"))
+		}
+	}
+	s.HalfClose = rapid.Bool().Draw(rt, "halfclose")
 	return c
 }
 
 func TestVerif_C05_proxy(t *testing.T) {
-	rec := vh.NewRec("C05", "proxy", "rapid-drawn tunnels through Proxy(): scripted client connection (0-5 upload steps: chunks of 1 B .. 70000 B or, with probability 1/6, a zero-length read without error; optional write fault (also: short with nil error and then (0, nil) from every later Write) / SetDeadline fault / Close error / lingering Close of 15-40 ms; last chunk optionally returned together with EOF or an error) x real loopback TCP covert {sinks the upload until the station closes, replies and closes with FIN, replies and resets with SetLinger(0), refuses the connection} with 0-3 reply writes of 1 B .. 70000 B x registration {without proxy_header flag (2/3), with the flag and an ip:port client address (PROXY line sent first), with the flag and a client RemoteAddr that is not host:port (header cannot be sent, Proxy gives up)}; the session gauge is compared before / after for every outcome; upload steps with probability 1/4 preceded by a statistics epoch roll-over (ProxyStats.PrintAndReset / Reset, Stats.Reset) while the tunnel is open: the gauge must read (previous value + 1) right before and right after it, and the per-epoch byte counters summed over the epochs must equal the tunnel summary; non-trivial = an injected fault other than a plain EOF alone was hit, or the covert reset / refused; distinct by case")
+	rec := vh.NewRec("C05", "proxy", "rapid-drawn tunnels through Proxy(): scripted client connection (0-5 upload steps: chunks of 1 B .. 70000 B or, with probability 1/6, a zero-length read without error; optional write fault (also: short with nil error and then (0, nil) from every later Write) / SetDeadline fault / Close error / lingering Close of 15-40 ms; last chunk optionally returned together with EOF or an error) x real loopback TCP covert {sinks the upload until the station closes, replies and closes with FIN, replies and resets with SetLinger(0), refuses the connection, sinks the upload until it sees its end (FIN / RST) and then stays: attempts 0-2 more writes and keeps its socket open until Proxy has returned - the end of the upload direction alone must bring the tunnel down, and nothing the covert sent after it saw that end may reach the client connection} with 0-3 reply writes of 1 B .. 70000 B; the client connection with probability 1/2 half-closable (CloseWrite / CloseRead offered, as the covert's *net.TCPConn always does) x registration {without proxy_header flag (2/3), with the flag and an ip:port client address (PROXY line sent first), with the flag and a client RemoteAddr that is not host:port (header cannot be sent, Proxy gives up)}; the session gauge is compared before / after for every outcome; upload steps with probability 1/4 preceded by a statistics epoch roll-over (ProxyStats.PrintAndReset / Reset, Stats.Reset) while the tunnel is open: the gauge must read (previous value + 1) right before and right after it, and the per-epoch byte counters summed over the epochs must equal the tunnel summary; non-trivial = an injected fault other than a plain EOF alone was hit, or the covert reset / refused; distinct by case")
 	defer rec.Flush()
-	rec.Require("mode:sink", "mode:reply-fin", "mode:reply-rst", "mode:refuse", "up:complete-demanded", "down:complete-demanded", "down-ends-first", "stats:epoch-rolled-over-during-tunnel", "header:ok", "header:bad-remote", "header:send-failed", "close:sync-attributed", "read:data+eof", "read:zero-length", "close:slow", "write:short")
+	rec.Require("mode:sink-hold", "covert:stays-after-upload-end", "covert:sends-after-upload-end", "caps:client-half-closable",
+		"mode:sink", "mode:reply-fin", "mode:reply-rst", "mode:refuse", "up:complete-demanded", "down:complete-demanded", "down-ends-first", "stats:epoch-rolled-over-during-tunnel", "header:ok", "header:bad-remote", "header:send-failed", "close:sync-attributed", "read:data+eof", "read:zero-length", "close:slow", "write:short")
 	c05QuietStats(t)
 	env := c05NewProxyEnv(t)
 	if p := vh.ReplayFile(); p != "" {
@@ -627,6 +690,12 @@ func TestVerif_C05_proxy(t *testing.T) {
 		{Mode: "reply-fin", Client: c05Script{Reads: []c05Step{{N: 3000}}, End: "hold", CloseMs: 40, CloseErr: "reset"}, Await: 3000, Reply: []int{8}},
 		{Mode: "reply-rst", Client: c05Script{Reads: []c05Step{{N: 10}}, End: "hold", CloseMs: 40}, Await: 10, Reply: []int{8}},
 		{Mode: "sink", Client: c05Script{Reads: []c05Step{{N: 10}}, End: "eof", CloseMs: 25}},
+		{Mode: "sink-hold", Client: c05Script{Reads: []c05Step{{N: 100}, {N: 40000}}, End: "eof"}},
+		{Mode: "sink-hold", Client: c05Script{Reads: []c05Step{{N: 13}}, End: "eof", HalfClose: true}, After: []int{100, 5000}},
+		{Mode: "sink-hold", Client: c05Script{Reads: []c05Step{{N: 1, Wait: 1448}, {N: 100}}, End: "reset"}, Reply: []int{1448}, After: []int{1}},
+		{Mode: "sink-hold", Header: "ok", Client: c05Script{End: "eof"}, After: []int{70000}},
+		{Mode: "reply-fin", Client: c05Script{Reads: []c05Step{{N: 3000}}, End: "hold", HalfClose: true}, Await: 3000, Reply: []int{1, 70000}},
+		{Mode: "sink", Client: c05Script{Reads: []c05Step{{N: 100}}, End: "eof", HalfClose: true}},
 	} {
 		c05ProxyCheck(t, rec, env, c)
 	}
